@@ -513,6 +513,11 @@ impl P2p {
         // User can give us a bad header, so validate it.
         from.validate().map_err(|_| HeaderExError::InvalidRequest)?;
 
+        // An empty range can't be requested on `header-ex`, the session would retry it forever.
+        if amount == 0 {
+            return Err(HeaderExError::InvalidRequest.into());
+        }
+
         let height = from.height() + 1;
 
         let range = height..=height + amount - 1;
